@@ -428,9 +428,11 @@ def oracle(specs, starts, out, exact):
     return fails
 
 
-def near_threshold(specs, starts, order):
-    """True if some tolerance comparison of the concatenation is within 2^-20 (relative) of equality,
-       where float and exact arithmetic might take different branches."""
+def near_threshold(specs, starts, order, exact=True):
+    """True if some comparison of the concatenation is so close to equality that float and exact
+       arithmetic might take different branches: the tolerance tests (within 2^-20 relative); and, for inputs
+       that are not dyadic (shipped compilers), also gap/step close to an integer (the `> 3*step` test and the
+       length of np.arange)."""
     wins = windows(specs, starts)
     if wins is None:
         return False
@@ -446,6 +448,12 @@ def near_threshold(specs, starts, order):
         r = abs(F(x)) / thr
         return abs(r - 1) < NEAR
 
+    def near_int(g, step):
+        if exact or step == 0:
+            return False
+        r = float(abs(F(g)) / step)
+        return r > 0.5 and abs(r - round(r)) < 1e-9 * max(1.0, r)
+
     ms = None
     lasts = []
     for name, ws in chans.items():
@@ -455,13 +463,16 @@ def near_threshold(specs, starts, order):
             ms = step if ms is None or step < ms else ms
             if near(last, step * TOL) or near(F(w["s"]) - last, step * TOL):
                 return True
+            if w["kind"] == "continuous" and near_int(F(w["s"]) - last, step):
+                return True
             last = F(w["s"]) + F(w["ts"][-1])
         lasts.append(last)
     if not lasts:
         return False
     final = max(lasts)
+    any_cont = any(w["kind"] == "continuous" for ws in chans.values() for w in ws)
     for last in lasts:
-        if near(final - last, ms * TOL):
+        if near(final - last, ms * TOL) or (any_cont and near_int(final - last, ms)):
             return True
     return False
 
@@ -728,7 +739,7 @@ def correspond(ctx):
             cases.append(gen_case(rng, flavor, big=ctx.thorough and rng.random() < 0.5))
     for _ in range(ctx.n(40, 300)):
         cases.append(gen_malformed(rng))
-    for _ in range(ctx.n(40, 250)):
+    for _ in range(ctx.n(70, 400)):
         cases.append(gen_shipped(rng))
 
     prepared = []
@@ -745,11 +756,14 @@ def correspond(ctx):
             if case.get("mode") and specs:
                 # scheduled + unbuildable instruction: the model is given no start times; use unscheduled form
                 pass
-        if exact and well_formed(specs) and near_threshold(specs, starts, order):
-            corr.tally("discarded:near-tolerance-threshold")
-            continue
         for f in fails:
-            corr.oracle_fail(case, f, f.get("want"), "C12 oracle: " + f["kind"])
+            rec = dict(input=case, observed=f, expected=f.get("want"), what="C12 oracle: " + f["kind"])
+            corr.oracle_fail(case, f, f.get("want"), rec["what"])
+            corr.tally("oracle-failure:" + f["kind"] + ":" + str(classify(rec)))
+        if well_formed(specs) and near_threshold(specs, starts, order, exact):
+            # the oracle has judged the case; only the model comparison is skipped
+            corr.tally("model-comparison-skipped:near-threshold")
+            continue
         mode = case.get("mode") if real["starts"] is not None else None
         term, id2name = coq_term(specs, starts, order, mode)
         terms.append(term)
